@@ -296,30 +296,31 @@ structure CtorArg where
 def ctorFunc (f p : Field) (fns : List (Nat × Fn)) : Option Nat :=
   ((fns.filter (fun kf => kf.2.param == f.ty && kf.2.result == p.ty)).getLast?).map (·.1)
 
-/-- one (field, parameter) visit of `makeCtorMatch`; `ws` is the write-set of the side the ctor builds -/
+/-- one (field, parameter) visit of `makeCtorMatch`; `acc.1` is the write-set of the side the ctor builds -/
 def ctorVisit (conv : List (Ty × Ty)) (fns : List Fn) (nm : Field → Field → Bool)
     (acc : List String × List CtorArg) (fp : Field × Field) : List String × List CtorArg :=
-  let f := fp.1
-  let p := fp.2
-  if f.isSet then acc
-  else if !nm f p then acc
-  else if acc.1.contains p.name then acc
-  else
-    let (same, cv) := matchType conv f.ty p.ty
-    if same then (p.name :: acc.1, acc.2 ++ [⟨p, some f, .assign⟩])
-    else if cv then (p.name :: acc.1, acc.2 ++ [⟨p, some f, .conv⟩])
-    else match ctorFunc f p (indexed fns) with
-      | some k => (p.name :: acc.1, acc.2 ++ [⟨p, some f, .func k⟩])
-      | none => acc
+  if fp.1.isSet then acc
+  else if !nm fp.1 fp.2 then acc
+  else if acc.1.contains fp.2.name then acc
+  else if (matchType conv fp.1.ty fp.2.ty).1 then (fp.2.name :: acc.1, acc.2 ++ [⟨fp.2, some fp.1, .assign⟩])
+  else if (matchType conv fp.1.ty fp.2.ty).2 then (fp.2.name :: acc.1, acc.2 ++ [⟨fp.2, some fp.1, .conv⟩])
+  else match ctorFunc fp.1 fp.2 (indexed fns) with
+    | some k => (fp.2.name :: acc.1, acc.2 ++ [⟨fp.2, some fp.1, .func k⟩])
+    | none => acc
+
+/-- `for f in fields { for p in params { … } }` -/
+def ctorFold (conv : List (Ty × Ty)) (fns : List Fn) (nm : Field → Field → Bool)
+    (fields params : List Field) (ws : List String) : List String × List CtorArg :=
+  (fields.flatMap (fun f => params.map (fun p => (f, p)))).foldl (ctorVisit conv fns nm) (ws, [])
 
 /-- `makeCtorMatch`: returns the new write-set and, when some parameter found a value, the
-    argument list in parameter order (`none` = the zero literal) -/
+    argument list in parameter order (`rd = none`: the zero literal) -/
 def ctorMatch (conv : List (Ty × Ty)) (fns : List Fn) (nm : Field → Field → Bool)
     (fields params : List Field) (ws : List String) : List String × Option (List CtorArg) :=
-  if params.isEmpty then (ws, none) else
-  let r := (fields.flatMap (fun f => params.map (fun p => (f, p)))).foldl (ctorVisit conv fns nm) (ws, [])
-  if r.2.isEmpty then (ws, none)
-  else (r.1, some (params.map (fun p => (r.2.find? (fun a => a.p == p)).getD ⟨p, none, .assign⟩)))
+  if params.isEmpty then (ws, none)
+  else if (ctorFold conv fns nm fields params ws).2.isEmpty then (ws, none)
+  else ((ctorFold conv fns nm fields params ws).1,
+        some (params.map (fun p => ((ctorFold conv fns nm fields params ws).2.find? (fun a => a.p == p)).getD ⟨p, none, .assign⟩)))
 
 /-- insertion sort on strings (interface method order; sort.Strings) -/
 def insertStr (x : String) : List String → List String
